@@ -220,7 +220,7 @@ func (x *fnv) applyContract(s *State, fc *FuncContract, declSig *types.Signature
 		short = short[i+1:]
 	}
 	for _, cl := range fc.Requires {
-		g := env.evalBool(cl.Expr)
+		g := env.goal(cl.Expr)
 		label := short
 		if cl.Label != "" {
 			label += "." + cl.Label
@@ -258,7 +258,7 @@ func (x *fnv) applyContract(s *State, fc *FuncContract, declSig *types.Signature
 		post.vars["result"] = res[0]
 	}
 	for _, cl := range fc.Ensures {
-		s.Assume(post.evalBool(cl.Expr))
+		s.Assume(post.assumption(cl.Expr))
 	}
 	return res
 }
